@@ -2043,6 +2043,27 @@ def hashmap_scenarios(rng, count, exhaustive_pairs=True):
                 b = Builder()
                 emit(b, [("insert", kn, kn)] + [(op, kn, kn) for op in seq] + [("len", kn, kn)])
                 out.append(("map4:%s:%s" % (kn, "-".join(seq)), b.toks))
+        # keys that are, or contain, the receiver map itself (unhashable; the rejection message prints the key while the map is
+        # being operated on): every key-taking operation, on an empty and on a one-entry map, which must stay usable afterwards
+        selfkeys = {"the map": lambda b: b.v("m"), "tuple holding the map": lambda b: tup(lit(0), b.v("m")),
+                    "tuple holding a vector holding the map": lambda b: tup(lit(0), vec(b.v("m"))), "vector holding the map": lambda b: vec(b.v("m"))}
+        for kn, key in selfkeys.items():
+            for filled in (False, True):
+                for first in ("insert", "remove", "get", "has_key", "literal"):
+                    b = Builder()
+                    b.var("m", mapnode((lit(1), lit("one"))) if filled else mapnode())
+                    for op in [first, "insert", "remove", "get", "has_key"]:
+                        b.try_()
+                        if op == "literal":
+                            b.print(tup(lit("literal"), inv(mapnode((key(b), lit("x"))), "len")))
+                        else:
+                            b.print(tup(lit(op), inv(b.v("m"), op, *([key(b)] + ([lit("v")] if op == "insert" else [])))))
+                        b.catch("e")
+                        b.print(tup(lit("error"), call(b.v("type"), b.v("e")), get(b.v("e"), "context")))
+                        b.end()
+                    b.print(tup(lit("len"), inv(b.v("m"), "len")))
+                    b.print(tup(lit("insert after"), inv(b.v("m"), "insert", lit(2), lit("two")), inv(b.v("m"), "get", lit(2)), inv(b.v("m"), "len")))
+                    out.append(("mapself:%s:%s:%s" % (kn, filled, first), b.toks))
     for k in range(count):
         b = Builder()
         plan = [(rng.choice(ops), rng.choice(names), rng.choice(names)) for _ in range(rng.randint(2, 7))]
